@@ -2,7 +2,7 @@
 
 E1: every code point on a small (index, line, column) grid for construction; every range on a 0..G index grid
 (pairs and triples exhaustively) for the order / containment / overlap / hull laws; every range x 3 sources for
-get_raw(); every tuple of <= 4 operands over a 12-origin alphabet (no origin, overlapping / touching / disjoint code
+get_raw(); every tuple of <= 4 operands over a 13-origin alphabet (no origin, overlapping / touching / disjoint code
 origins, one whose points carry other line / column labels, one on an equal but separately built source, another source, generated, XML, an existing flat multi-origin) for merge_origins, concat_origins and
 left-folded +, compared with a reference fold written from the statement.
 """
@@ -13,6 +13,8 @@ import itertools
 from .. import boot  # noqa: F401
 from pyoak.origin import (
     NO_ORIGIN,
+    EntireSourcePosition,
+    Origin,
     CodeOrigin,
     CodePoint,
     CodeRange,
@@ -35,7 +37,7 @@ PID = "C15"
 RULE = (
     "points: all (index, line, column) in [-1..G] x [0..2] x [-1..1]; ranges: all ordered index pairs on 0..G incl. ill-formed; "
     "all pairs and triples of well-formed ranges for the laws; every range on texts of length 0, 3, 6 and a non-text source for "
-    "get_raw; all pairs also with every labelling of the end points (same index, other line / column); all operand tuples of length <= 4 over 12 origins for merge / concat / +.  states = distinct operand tuples and "
+    "get_raw; all pairs also with every labelling of the end points (same index, other line / column); all operand tuples of length <= 4 over 13 origins for merge / concat / +.  states = distinct operand tuples and "
     "range tuples; transitions = law instances / operations evaluated against the reference; non-trivial = operand tuples whose "
     "reference result is a MultiOrigin or a coalesced CodeOrigin (not simply one operand or NoOrigin)"
 )
@@ -196,6 +198,7 @@ def alphabet():
         "d02": CodeOrigin(s3, R(0, 2)),     # same range, other source
         "gen": GeneratedCodeOrigin(s3),     # a CodeOrigin subclass at 0-0 on s3: touches d02
         "xml": XMLFileOrigin(sb, XMLPath("/a/b")),
+        "base": Origin(s6, EntireSourcePosition()),   # an instance of the base class itself (every other operand is of a subclass)
         "m": merge_origins(CodeOrigin(s6, R(0, 1)), XMLFileOrigin(sb, XMLPath("/z"))),   # an existing flat multi-origin
         "m2": merge_origins(CodeOrigin(s3, R(1, 2)), CodeOrigin(s3, R(2, 3))),            # multi with a common source
     }
